@@ -66,6 +66,80 @@ macro_rules! tab {
         }
     };
 }
+/// Light two-sample history for the quick tier (see c01::h01_sums): every run-length table accounts
+/// for exactly the samples written; sync numbers increasing and in range.
+pub fn h02_sums<const K: usize>(lens: [usize; K]) {
+    let mut out = [0u8; 16];
+    let (tw, w) = match run_history::<K>(Kind::Ttxt, lens, &mut out, DUR_LIMIT) {
+        Some(x) => x,
+        None => {
+            assert!(false, "C02 a valid configuration is accepted");
+            return;
+        }
+    };
+    let trak = tw.into_trak();
+    let stbl = &trak.mdia.minf.stbl;
+    assert!(stbl.stsz.sample_count == K as u32, "C02 the size table accounts for exactly the samples written");
+    let mut n: u64 = 0;
+    let mut r = 0;
+    while r < K {
+        if r < stbl.stts.entries.len() {
+            n += stbl.stts.entries[r].sample_count as u64;
+        }
+        r += 1;
+    }
+    assert!(stbl.stts.entries.len() <= K && n == K as u64, "C02 the time-to-sample table accounts for exactly the samples written");
+    if let Some(ref ctts) = stbl.ctts {
+        let mut n: u64 = 0;
+        let mut r = 0;
+        while r < K {
+            if r < ctts.entries.len() {
+                n += ctts.entries[r].sample_count as u64;
+            }
+            r += 1;
+        }
+        assert!(ctts.entries.len() <= K && n == K as u64, "C02 the composition-offset table accounts for exactly the samples written");
+    }
+    if let Some(ref stss) = stbl.stss {
+        let mut prev: u32 = 0;
+        let mut r = 0;
+        while r < K {
+            if r < stss.entries.len() {
+                assert!(stss.entries[r] > prev && stss.entries[r] as usize <= K, "C02 sync-sample numbers are strictly increasing and in range");
+                prev = stss.entries[r];
+            }
+            r += 1;
+        }
+        assert!(stss.entries.len() <= K);
+    }
+    let mut sum: u64 = 0;
+    let mut i = 0;
+    while i < K {
+        sum += w.dur[i] as u64;
+        i += 1;
+    }
+    assert!(trak.mdia.mdhd.duration == sum, "C02 media header duration equals the summed sample durations");
+    kani::cover!(true, "history completed");
+    std::mem::forget(trak);
+}
+#[kani::proof]
+#[kani::unwind(5)]
+fn q_h02sums__ttxt_k2_len11() {
+    h02_sums::<2>([1, 1])
+}
+#[kani::proof]
+#[kani::unwind(6)]
+fn t_h02sums__ttxt_k3_len101() {
+    h02_sums::<3>([1, 0, 1])
+}
+
+/// two samples, concrete small durations (see c01::FIXED_DUR)
+#[kani::proof]
+#[kani::unwind(5)]
+fn t_h02fix__ttxt_k2_len11_dur1() {
+    unsafe { FIXED_DUR = Some(1) };
+    h02_tables::<2>(Kind::Ttxt, [1, 1])
+}
 tab!(q_h02tab__ttxt_k0, 4, 0, Kind::Ttxt, []);
 tab!(q_h02tab__ttxt_k1_len1, 4, 1, Kind::Ttxt, [1]);
 tab!(q_h02tab__ttxt_k1_len0, 4, 1, Kind::Ttxt, [0]);
